@@ -459,6 +459,16 @@ class Interp:
                 g = self.global_bytes(base[2])
                 if g is not None and 0 <= off and off * 8 + bits <= g[1]:
                     return T.slice_(g, off * 8, bits)
+            else:
+                gl = [x for x in base[2:] if x[0] == "global"]
+                rest = [x for x in base[2:] if x[0] != "global"]
+                if len(gl) == 1 and rest:
+                    g = self.global_bytes(gl[0][2])
+                    if g is not None and g[1] <= 1 << 16:
+                        # read of a constant table at a computed byte index: value = table bytes at
+                        # (index + off); an index outside the table is an out-of-bounds read (poison)
+                        idx = rest[0] if len(rest) == 1 else T.nary("add", 64, rest)
+                        return T.op("tabload", bits, g, idx, T.const(64, off & ((1 << 64) - 1)))
         if base[0] == "arg" and base[2] in self.boolmem and bits % 8 == 0:
             # memory known to hold valid bools: every byte is zext(bit)
             return T.concat([T.concat([T.mk("mem", 1, base, off + i, 0), T.const(7, 0)]) for i in range(bits // 8)])
@@ -494,6 +504,16 @@ class Interp:
         eb = ty.get("eb", bits)
         ops = ins["ops"]
         args = [self.val(o) for o in ops]
+        if "asm" in ins and ins["asm"].strip() in ("divq $2", "div $2") and (ins.get("asmc") or "").startswith(
+                "={ax},={dx},r,{ax},{dx}") and len(args) == 3 and bits == 128:
+            # SDM DIV r/m64: RDX:RAX / divisor -> RAX quotient, RDX remainder; #DE when the divisor is 0 or
+            # the quotient does not fit in 64 bits (RDX >= divisor)
+            y, lo, hi = args
+            if lo[1] < 64:
+                lo = T.zext(lo, 64)
+            S.effects.append(("divq", ins["asm"], ins.get("loc"), hi, y))
+            S.oblig.append(("divq", cond, "divq", 64, hi, y, ins.get("loc")))
+            return T.mk("struct", 128, T.op("x86.divq.q", 64, hi, lo, y), T.op("x86.divq.r", 64, hi, lo, y))
         if "asm" in ins:
             S.effects.append(("asm", ins["asm"], ins.get("asmc"), ins.get("loc")))
             S.flags.add("asm")
